@@ -65,6 +65,10 @@ def main():
         for p, c in (t.get("checks") or {}).items():
             if c.get("violations"):
                 how.append("violation with failing input" if not c.get("no_failing_input") else "broken correspondence (no-failing-input-found)")
+        if m.get("obsolete_after_fix"):
+            print(f"| {sid} | {str(m.get('summary',''))[:110].replace('|','/')} | {str(m.get('needs_to_manifest',''))[:90].replace('|','/')} | "
+                  f"{first} | (obsolete after fix {m['obsolete_after_fix'].get('commit')}: {str(m['obsolete_after_fix'].get('why',''))[:120].replace('|','/')}) | |")
+            continue
         print(f"| {sid} | {str(m.get('summary',''))[:110].replace('|','/')} | {str(m.get('needs_to_manifest',''))[:90].replace('|','/')} | "
               f"{first} | {', '.join(t.get('caught_by') or []) or 'NOT CAUGHT'} | {'; '.join(how)} |")
 
